@@ -430,8 +430,8 @@ class World:
     def _perm(self, names: list[str]) -> list[int]:
         """Next planned permutation of a directory's sorted entry names."""
         n = len(names)
-        if self._listing_i < len(self.listing_perms):
-            keys = self.listing_perms[self._listing_i]
+        if self.listing_perms:
+            keys = self.listing_perms[self._listing_i % len(self.listing_perms)]
         else:
             keys = []
         self._listing_i += 1
